@@ -715,6 +715,17 @@ pub(crate) fn parse_date_time(source: &str) -> TemporalResult<IxdtfParseRecord> 
             .with_message("UTC designator is not valid for DateTime parsing."));
     }
 
+    // The time of a date-time string has at most nine fractional digits, whether or not the
+    // caller goes on to use the time.
+    if let Some(time) = record.time {
+        if let Some(fraction) = time.fraction {
+            if fraction.to_nanoseconds().is_none() {
+                return Err(TemporalError::range()
+                    .with_message("fractional seconds exceeds nine digits."));
+            }
+        }
+    }
+
     Ok(record)
 }
 
